@@ -19,6 +19,7 @@ import (
 
 	"verif/mc/core"
 	"verif/mc/dump"
+	"verif/mc/gen/scale"
 	"verif/mc/explore"
 	"verif/mc/order"
 )
@@ -118,6 +119,9 @@ func scenarios() []scenario {
 		dump.File{Name: "y.yang", Text: `module y { ` + H("y") + ` typedef t { type int32; } identity b; grouping g { leaf gy { type t; } } container cy; }`},
 		dump.File{Name: "m.yang", Text: `module m { ` + H("m") + ` import x { prefix p; } include s1; typedef tm { type p:t; } identity im { base p:b; } leaf lm { type tm; } leaf lm2 { type p:t; } container um { uses p:g; } augment /p:cx { leaf am { type p:t; } } leaf rm { type identityref { base p:b; } } }`},
 		dump.File{Name: "s1.yang", Text: `submodule s1 { belongs-to m { prefix m; } import y { prefix p; } typedef ts { type p:t; } identity is { base p:b; } leaf ls { type ts; } leaf ls2 { type p:t; } container us { uses p:g; } augment /p:cy { leaf as { type p:t; } } leaf rs { type identityref { base p:b; } } }`})
+	// more derived identities than any small table holds, with identities reached along two paths
+	add("identity-fan-with-joins", nil, func() dump.File { f := scale.IdentityFan(34); f.Name = "fan.yang"; return f }(),
+		dump.File{Name: "fu.yang", Text: `module fu { ` + H("fu") + ` import m { prefix m; } identity far { base m:d3; base m:j9; } identity farther { base far; base m:d20; } leaf fr { type identityref { base m:root; } } }`})
 	// typedef derivation cycles: one error per member, whichever member is entered first
 	add("typedef-cycles", nil,
 		dump.File{Name: "ty.yang", Text: `module ty { ` + H("ty") + ` include tys; import tz { prefix tz; } typedef a { type b; } typedef b { type a; } typedef p { type q; } typedef r { type p; }
